@@ -115,7 +115,10 @@ Record task : Type := mkT {
   t_model : model;            (* async_tasks key it is registered under *)
   t_prot : bool;              (* member of protected_tasks *)
   t_stack : list kont;        (* innermost first *)
-  t_res : option res          (* Some: finished *)
+  t_res : option res;         (* Some: finished *)
+  t_ctx : option ev           (* AsyncMachine.current_context as seen by the asyncio task that runs this trigger:
+                                 Some id while a top-level process_context of task id is in progress, else None.
+                                 A trigger awaited later in the SAME asyncio task inherits the value left behind. *)
 }.
 
 Record qent : Type := mkQE { qe_no : nat; qe_ev : ev }.
@@ -138,6 +141,12 @@ Inductive ctl : Type :=
 | CExn (x : nat).            (* a trigger call raises x into the innermost continuation *)
 
 Inductive status : Type := Continue | Suspended | Finished.
+
+Fixpoint assoc_ev (l : list (ev * ev)) (e : ev) : option ev :=
+  match l with
+  | [] => None
+  | (e', p) :: r => if Nat.eqb e e' then Some p else assoc_ev r e
+  end.
 
 Section Model.
   Variable defs : list evdef.
@@ -280,18 +289,29 @@ Section Model.
         (h_done h ++ [(f_ev f, f_hist f, r)]).
 
   Definition set_stack (t : task) (s : list kont) : task :=
-    mkT (t_id t) (t_model t) (t_prot t) s (t_res t).
+    mkT (t_id t) (t_model t) (t_prot t) s (t_res t) (t_ctx t).
 
-  (* process_context of the top-level call returns: CancelledError becomes False; unregister *)
+  (* did process_context of this trigger find current_context empty, i.e. set the marker and register the task? *)
+  Definition own_ctx (t : task) : bool :=
+    match t_ctx t with Some x => Nat.eqb x (t_id t) | None => false end.
+
+  (* process_context of the top-level call returns.  Own registration (the normal case): CancelledError becomes
+     False; `finally`: the task is removed from async_tasks and current_context is reset — whether the event
+     raised or not.  With a marker inherited from an earlier trigger of the same asyncio task (process_context
+     takes its `else` branch; C08_context_reset shows this never happens) nothing is caught or cleaned up. *)
   Definition finish (t : task) (c : ctl) (h : shared) : task * shared :=
-    let r := match c with
-             | CRet r => r
-             | CExn x => if Nat.eqb x X_CANCEL then RBool false else RExn x
-             | CRun => RNone
-             end in
-    (mkT (t_id t) (t_model t) (t_prot t) [] (Some r),
-     mkH (h_mstate h) (h_models h) (h_queues h) (remove_first (t_model t, t_id t) (h_reg h)) (h_log h)
-         (h_next h) (h_cancel h) (h_done h)).
+    if own_ctx t then
+      let r := match c with
+               | CRet r => r
+               | CExn x => if Nat.eqb x X_CANCEL then RBool false else RExn x
+               | CRun => RNone
+               end in
+      (mkT (t_id t) (t_model t) (t_prot t) [] (Some r) None,
+       mkH (h_mstate h) (h_models h) (h_queues h) (remove_first (t_model t, t_id t) (h_reg h)) (h_log h)
+           (h_next h) (h_cancel h) (h_done h))
+    else
+      let r := match c with CRet r => r | CExn x => RExn x | CRun => RNone end in
+      (mkT (t_id t) (t_model t) (t_prot t) [] (Some r) (t_ctx t), h).
 
   (* result of an event frame whose code is exhausted *)
   Definition frame_outcome (f : frame) : ctl :=
@@ -492,7 +512,7 @@ Section Model.
     | t :: r => if p t then Some 0 else match find_idx p r with Some i => Some (S i) | None => None end
     end.
 
-  Definition dummy_task : task := mkT 0 0 false [] (Some RNone).
+  Definition dummy_task : task := mkT 0 0 false [] (Some RNone) None.
 
   Definition run_at (fuel : nat) (s : state) (i : nat) (t : task) (c : ctl) (h : shared) : state :=
     let '(t', h', ok) := run fuel (is_prot (s_tasks s)) t c h in
@@ -526,23 +546,49 @@ Section Model.
   Variable top : list ev.
   Variable protected : list ev.
 
+  (* (e, p): the trigger of e is awaited in the asyncio task that awaited the trigger of p before (its exception,
+     if any, caught by the caller) — e can be started once p has returned *)
+  Variable preds : list (ev * ev).
+
   Definition mem (e : ev) (l : list ev) : bool := existsb (Nat.eqb e) l.
+  Definition pred_of (e : ev) : option ev := assoc_ev preds e.
+  Definition task_done (t : task) : bool := match t_res t with Some _ => true | None => false end.
+
+  Definition can_start (s : state) (e : ev) : bool :=
+    mem e top && negb (mem e (s_started s)) &&
+    match pred_of e with
+    | None => true
+    | Some p => existsb (fun t => Nat.eqb (t_id t) p && task_done t) (s_tasks s)
+    end.
+
+  (* the value of current_context the new trigger finds: what the earlier trigger of the same asyncio task left *)
+  Definition inherited_ctx (s : state) (e : ev) : option ev :=
+    match pred_of e with
+    | None => None
+    | Some p => match find (fun t => Nat.eqb (t_id t) p) (s_tasks s) with Some t => t_ctx t | None => None end
+    end.
 
   (* what a schedule entry does: 1 = start the trigger task, 2 = release a future, 0 = nothing *)
   Definition step_kind (s : state) (e : ev) : nat :=
     if s_oof s then 0
-    else if mem e top && negb (mem e (s_started s)) then 1
+    else if can_start s e then 1
     else match find_idx (fun t => waiting_on t e) (s_tasks s) with Some _ => 2 | None => 0 end.
 
   Definition step (fuel : nat) (s : state) (e : ev) : state :=
     if s_oof s then s
-    else if mem e top && negb (mem e (s_started s)) then
-      (* ensure_future(model.trigger(e)): process_context registers the task, then _process_async *)
+    else if can_start s e then
+      (* model.trigger(e) is awaited by a fresh task (ensure_future) or by the task that awaited pred_of e before.
+         process_context: `if current_context.get() is None` set the marker and register the task in async_tasks;
+         then _process_async *)
       let m := e_model (edef e) in
-      let t0 := mkT e m (mem e protected) [] None in
+      let inh := inherited_ctx s e in
+      let t0 := mkT e m (mem e protected) [] None (match inh with None => Some e | Some _ => inh end) in
       let h := s_sh s in
-      let h0 := mkH (h_mstate h) (h_models h) (h_queues h) (h_reg h ++ [(m, e)]) (h_log h) (h_next h)
-                    (h_cancel h) (h_done h) in
+      let h0 := match inh with
+                | None => mkH (h_mstate h) (h_models h) (h_queues h) (h_reg h ++ [(m, e)]) (h_log h) (h_next h)
+                              (h_cancel h) (h_done h)
+                | Some _ => h
+                end in
       let s0 := mkS (s_tasks s ++ [t0]) h0 (e :: s_started s) false in
       let i := length (s_tasks s) in
       let s1 := match call_trigger e h0 with
